@@ -865,7 +865,7 @@ func (f *frame) doSlice(i *ssa.Slice, st *State, pc string) {
 	switch xt := i.X.Type().Underlying().(type) {
 	case *types.Pointer: // array -> slice
 		arr := xt.Elem().Underlying().(*types.Array)
-		if b, ok := arr.Elem().Underlying().(*types.Basic); ok && (b.Kind() == types.Byte || b.Kind() == types.Uint8) {
+		if b, ok := arr.Elem().(*types.Basic); ok && (b.Kind() == types.Byte || b.Kind() == types.Uint8) {
 			if arr.Len() == 0 {
 				f.vals[i] = T{"(mk false eps)", "NB"} // []byte{}
 				return
